@@ -243,7 +243,9 @@ class ProfileBase(metaclass=abc.ABCMeta):
             # need to use __dict__ as these are lazy properties
             self.__dict__['profile'] = self.profile / normalization
             self.__dict__['profile_error'] = self.profile_error / normalization
-            if 'data_profile' in self.__dict__:
+            # data_profile (defined only by RadialProfile) is rescaled
+            # whether or not it has already been computed
+            if hasattr(self, 'data_profile'):
                 self.__dict__['data_profile'] = (self.data_profile
                                                  / normalization)
 
@@ -255,7 +257,7 @@ class ProfileBase(metaclass=abc.ABCMeta):
         self.__dict__['profile'] = self.profile * self.normalization_value
         self.__dict__['profile_error'] = (self.profile_error
                                           * self.normalization_value)
-        if 'data_profile' in self.__dict__:
+        if hasattr(self, 'data_profile'):
             self.__dict__['data_profile'] = (self.data_profile
                                              * self.normalization_value)
         self.normalization_value = 1.0
